@@ -36,7 +36,10 @@ def simple_block(name, natoms, nrexcl=1, multi=False, ifdef=True, extra_excl=Fal
         inters.append(("angles", (0, 1, 2), ["2", "120", "45"], {}))
         if multi:
             inters.append(("angles", (0, 1, 2), ["10", "130", "55"], {}))
-    if extra_excl and natoms >= 3:
+    if extra_excl == "line of three" and natoms >= 3:
+        # one [ exclusions ] line with several partners: the first atom excludes each of the others (not the others among themselves)
+        inters.append(("exclusions", (1, 0, 2), [], {}))
+    elif extra_excl and natoms >= 3:
         inters.append(("exclusions", (0, 2), [], {}))
     if natoms >= 4:
         inters.append(("dihedrals", (0, 1, 2, 3), ["9", "0", "1.5", "1"], {}))
